@@ -1,9 +1,26 @@
 from engine import Query
 META = {
- 'functions': [],
- 'bounds': '',
- 'outside': '',
- 'assumptions': [],
+ 'functions': ['Digit::IntToString<false|true> (Digit.hpp:101-140)', 'Digit::NumberToString integer branch (Digit.hpp:69-98)',
+               'DigitUtils::DigitTable1/DigitTable2 (DigitUtils.hpp:109-113)',
+               'Digit::formatStringNumberFixed<true|false> (Digit.hpp:1048-1140)', 'Digit::formatStringNumberDefault (Digit.hpp:947-1046)',
+               'Digit::roundStringNumber (Digit.hpp:1142-1171)', 'Digit::insertPowerOfTen / insertZeros / insertZerosLarge (Digit.hpp:882-914)',
+               'Digit::realToString, zero / inf / nan branches only (Digit.hpp:725-880)'],
+ 'bounds': '(a) integers: EVERY 8- and 16-bit value (signed and unsigned, both directions, char/char16_t/char32_t, symbolic 0-2 unit stream prefix). '
+           '32- and 64-bit types: every value < 100 (h_base), a value window |v| <= 99999 (quick) / 9999999 (thorough), and the edge set '
+           '{10^k - 1, 10^k : all k} + {type maximum, maximum - 1, signed maximum, signed maximum - 1, signed minimum, signed minimum + 1}. '
+           '(b) real numbers: only the decimal string kernels (stage iii of realToString) over a symbolic reversed digit run of NDIG <= 5 (quick) / 8 '
+           '(thorough) digits, precision <= 4, all three formats, under the call-site model written at the top of C10_fmt.cpp '
+           '(validated natively on 5.0M Fixed and 3.0M Default call sites of random normal doubles: 0 deviations); V < 1 restricted to '
+           'calculated_digits <= 3 (V > ~0.001), Default format with at most 3 dropped integer digits; zero / inf / nan for double and float, all formats.',
+ 'outside': '32/64-bit integers outside the window and edge set: no back end decided the Horner oracle for more than ~7 symbolic digits (measured: 32-bit '
+            'full range, minisat/kissat/cadical 300 s, cvc5 bv-as-int 300 s, z3 120 s; 64-bit kissat/cadical 900 s; an induction-step formulation '
+            'text(100w+r) == text(w)++pair(r) 120 s on every back end). Stages (i)/(ii) of realToString (binary -> scaled big integer -> digit run: BigInt '
+            'multiply/divide, bigIntToString) are not encoded: realToString<Half> was not attempted under CBMC after the integer kernel alone proved out '
+            'of reach beyond 7 digits; two defects of stage (i) (sticky flag set on exact values / lost when the fraction is dropped, Default format) were '
+            'found by the native model validation, not by the solver. Subnormal doubles, precision > 4, runs longer than NDIG.',
+ 'assumptions': ['FixedStream stand-in for the stream template parameter (operator+= overload set narrowed to the real StringStream one)',
+                 'call-site model of realToString -> formatStringNumber* (C10_fmt.cpp header comment), derived by reading Digit.hpp:752-855 and validated natively',
+                 'bytes beyond the stream length are arbitrary but fixed (symbolic stale content)'],
 }
 INT_TYPES = {   # tag: (C type, max digits)
  'u8': ('unsigned char', 3), 'u16': ('unsigned short', 5), 'u32': ('unsigned int', 10), 'u64': ('unsigned long long', 20),
@@ -40,9 +57,16 @@ def kf(defs, excl=(), only=None):
     """until the ids are listed in known_findings.json the defines can be forced with VF_KF_MANUAL=1 (testing only)"""
     d = dict(defs)
     if MANUAL_KF:
-        for k in excl: d['KF_EXCL_' + k.replace('-', '_')] = 1
+        skip = os.environ.get('VF_KF_SKIP', '').split(',')      # ids to treat as fixed (validating a proposed fix)
+        for k in excl:
+            if k not in skip: d['KF_EXCL_' + k.replace('-', '_')] = 1
         if only: d['KF_ONLY_' + only.replace('-', '_')] = 1
     return d
+FMT_KF = ('C10-prec0-dot', 'C10-trim-integer-zeros', 'C10-tie-leading-zeros', 'C10-prec0-round-to-one', 'C10-round-reads-past-end')
+def fmt_bounds(n):
+    m = n + 8
+    return {'draw': n + 1, 'fill': 25, 'ref_round|ref_text': m, 'h_fixed': 7, 'formatStringNumberFixed|roundStringNumber': m, 'Write': m, 'Reverse': m, 'InsertAt': m,
+            'insertZerosLarge': 2}
 def fmt_queries(tier):
     qs = []
     NMAX = 5 if tier == 'quick' else 8
@@ -51,13 +75,40 @@ def fmt_queries(tier):
             for mode in (0, 1, 2):
                 for n in range(1, NMAX + 1):
                     if mode == 1 and n < 2: continue
-                    m = n + 8
-                    b = {'draw|fill': n + 1, 'ref_round|ref_text': m, 'h_fixed': 7, 'formatStringNumberFixed|roundStringNumber': m, 'Write': m, 'Reverse': m, 'InsertAt': m,
-                         'insertZerosLarge': 2}
-                    ex = ['C10-prec0-dot', 'C10-trim-integer-zeros', 'C10-tie-leading-zeros', 'C10-prec0-round-to-one']
+                    b = fmt_bounds(n)
+                    ex = list(FMT_KF)
                     qs.append(Query('fmt/%s/%s/mode%d/n%d' % ('fixed' if fixed else 'semifixed', ch, mode, n), 'C10_fmt.cpp', 'h_fixed',
                                     kf({'NDIG': n, 'MODE': mode, 'FIXED': fixed, 'CHAR': ch}, ex), bounds=b, cflags=PRIV, kf_excl=ex, timeout=600, mem_gb=8))
+    DEF_KF = ('C10-default-prec0', 'C10-trim-integer-zeros', 'C10-default-sticky-lost')
+    for mode in (0, 1, 2):
+        for n in range(1, NMAX + 1):
+            if mode == 1 and n < 2: continue
+            b = fmt_bounds(n); b.update({'h_default': n + 12, 'formatStringNumberDefault': n + 8, 'IntToString': 3})
+            ex = list(DEF_KF)
+            qs.append(Query('fmt/default/char/mode%d/n%d' % (mode, n), 'C10_fmt.cpp', 'h_default', kf({'NDIG': n, 'MODE': mode, 'CHAR': 'char'}, ex),
+                            bounds=b, cflags=PRIV, kf_excl=ex, timeout=600, mem_gb=8))
+    # the known findings, each on a small instance where it is reachable (expected counterexamples)
+    for tag, fixed, mode, n, only in (('prec0-dot', 1, 0, 1, 'C10-prec0-dot'), ('trim-zeros', 1, 1, 4, 'C10-trim-integer-zeros'),
+                                      ('trim-zeros-semi', 0, 1, 4, 'C10-trim-integer-zeros'), ('tie-lead', 1, 2, 4, 'C10-tie-leading-zeros'),
+                                      ('prec0-one', 0, 2, 2, 'C10-prec0-round-to-one'), ('past-end', 0, 2, 1, 'C10-round-reads-past-end')):
+        ex = [k for k in FMT_KF if k != only]
+        qs.append(Query('fmt/kf/%s' % tag, 'C10_fmt.cpp', 'h_fixed', kf({'NDIG': n, 'MODE': mode, 'FIXED': fixed, 'CHAR': 'char'}, ex, only),
+                        bounds=fmt_bounds(n), cflags=PRIV, kf_excl=ex, kf_only=ko(only), timeout=600, mem_gb=8))
+    for tag, mode, n, only in (('default-prec0', 0, 2, 'C10-default-prec0'), ('default-sticky-lost', 1, 3, 'C10-default-sticky-lost'),
+                               ('default-trim-zeros', 1, 3, 'C10-trim-integer-zeros')):
+        ex = [k for k in DEF_KF if k != only]
+        b = fmt_bounds(n); b.update({'h_default': n + 12, 'formatStringNumberDefault': n + 8, 'IntToString': 3})
+        qs.append(Query('fmt/kf/%s' % tag, 'C10_fmt.cpp', 'h_default', kf({'NDIG': n, 'MODE': mode, 'CHAR': 'char'}, ex, only),
+                        bounds=b, cflags=PRIV, kf_excl=ex, kf_only=ko(only), timeout=600, mem_gb=8))
+    return qs
+def special_queries(tier):
+    qs = []
+    for ch in ('char', 'char16_t', 'char32_t'):
+        for flt in (0, 1):
+            ex = ['C10-prec0-dot']
+            qs.append(Query('special/%s/%s' % ('float' if flt else 'double', ch), 'C10_special.cpp', 'h_special', kf({'CHAR': ch, 'FLT': flt}, ex),
+                            bounds={'Write': 6, 'insertZerosLarge': 2, 'h_special': 6}, default_unwind=2, kf_excl=ex, timeout=600, mem_gb=8))
     return qs
 def queries(tier):
     import os
-    return int_queries(tier, int(os.environ.get('C10_WIN', '99999' if tier == 'quick' else '9999999'))) + fmt_queries(tier)
+    return int_queries(tier, int(os.environ.get('C10_WIN', '99999' if tier == 'quick' else '9999999'))) + fmt_queries(tier) + special_queries(tier)
